@@ -246,6 +246,8 @@ def one_case(ctx, prog, vec=None, label="gen", derive=None):
     for key in ("count", "ids", "paths", "unique_paths"):
         if impl[key] != ans.get(key):
             ctx.disagree(f"C01.{key}", case, impl[key], ans.get(key))
+    if ans.get("name_orders_agree") is False:
+        ctx.disagree("C01.member_order.two_renderings", case, "posLe (splitOn)", "posLeL (character lists)")
     mi = X.canon_inst(ans["inst_vec"])
     if "err" in impl["inst_vec"]:
         if not contains_missing_or_domain(mi):
@@ -566,10 +568,17 @@ def run(ctx):
             # and builds must agree in the same way
             one_case(ctx, prog, derive=ctx.rng.choice(DERIVATIONS))
     same_named_classes(ctx)
+    import c01_build
+
+    c01_build.run_build(ctx)  # construction from the class signature, collections, member order
 
 
 def replay(ctx, payload):
     case = payload.get("case") or payload.get("disagreements", [{}])[0].get("case")
     if case.get("label") == "same-named-classes":
         return same_named_classes(ctx)
+    if case.get("label") in ("build", "names"):
+        import c01_build
+
+        return c01_build.replay_build(ctx, case)
     one_case(ctx, case["program"], case.get("vector"), label="replay", derive=case.get("derive"))
